@@ -84,6 +84,22 @@ def unary_op(op: str, arg):
     raise RuntimeError(f"Invalid unary operation {op}")
 
 
+def flatten_sum(expr: sp.Expr) -> sp.Expr:
+    """Write a sum of sums as one sum, x + (y + pi) -> x + y + pi, without evaluating it
+
+    The trigonometric functions in sympy peel multiples of pi off their argument by looking
+    at the terms of the sum. A term that is itself an unevaluated sum, (y + pi), is taken
+    to be a multiple of pi as a whole, so that cos(x + (y + pi)) became -cos(x).
+    """
+    if not isinstance(expr, sp.Add):
+        return expr
+    terms: list[sp.Expr] = []
+    for arg in expr.args:
+        arg = flatten_sum(arg)
+        terms.extend(arg.args if isinstance(arg, sp.Add) else [arg])
+    return sp.Add(*terms, evaluate=False)
+
+
 def build_expression(
     root: lark.Tree,
     symbols: dict[str, sp.Symbol] | None = None,
@@ -149,7 +165,9 @@ def build_expression(
                 # Only exceptions is 'abs' which is 'Abs'
                 funcname = "Abs"
 
-            return getattr(sp, funcname)(*[expr2symbols(c) for c in tree.children[1:]])
+            return getattr(sp, funcname)(
+                *[flatten_sum(expr2symbols(c)) for c in tree.children[1:]]
+            )
 
         if tree.data == "logicalfunc":
             if tree.children[0] == "Conditional":
